@@ -101,5 +101,8 @@ func childInt(child string) (uint32, error) {
 	if err != nil {
 		return 0, fmt.Errorf("failed to get child int %w", err)
 	}
+	if suffix != 0 && t >= uint64(suffix) {
+		return 0, fmt.Errorf("hardened child index %d out of range", t)
+	}
 	return uint32(t) + suffix, nil
 }
